@@ -1,7 +1,7 @@
 (* Extract.v — extraction of the executable model (ExtrOcamlBasic only; numbers stay inductive). *)
-From LS Require Import Base Utf8 Cmd Impl Exec GrowSim.
+From LS Require Import Base Utf8 Cmd Impl Exec GrowSim Lossy.
 From Coq Require Import ExtrOcamlBasic.
 Extraction Language OCaml.
 Set Extraction Output Directory ".".
 Extraction "model_ex.ml" exec world0 orc_of text_of cap_of rc_of live_blocks drop_all log wmem pool
-  utf8_valid is_char_boundary encode_cp decode_cp gstep.
+  utf8_valid is_char_boundary encode_cp decode_cp gstep lossy utf16_decode.
